@@ -86,21 +86,42 @@ impl TextDocument {
     }
 
     fn validate_range(&self, range: Range) -> Result<(), DocumentError> {
-        let start = self.position_to_index(range.start);
-        let end = self.position_to_index(range.end);
-        if start > end || end > self.content.len() {
+        let (start, start_on_boundary) = self.locate(range.start);
+        let (end, end_on_boundary) = self.locate(range.end);
+        if !start_on_boundary || !end_on_boundary || start > end || end > self.content.len() {
             return Err(DocumentError::InvalidRange { range });
         }
         Ok(())
     }
 
     fn position_to_index(&self, position: Position) -> usize {
+        self.locate(position).0
+    }
+
+    /// Converts an LSP position to a byte index into the content.
+    ///
+    /// `position.character` counts UTF-16 code units (the encoding the protocol uses unless
+    /// another one is negotiated), while the content is UTF-8. As the protocol specifies, a
+    /// character offset beyond the end of the line denotes the end of the line, before its
+    /// line terminator. The returned flag is `false` if the position is in the middle of a
+    /// surrogate pair, in which case the index is the one following that character.
+    fn locate(&self, position: Position) -> (usize, bool) {
         let line_offset = self
             .line_offsets
             .get(position.line as usize)
             .copied()
             .unwrap_or(self.content.len());
-        line_offset + position.character as usize
+        let character = position.character as usize;
+        let mut index = line_offset;
+        let mut utf16_units = 0;
+        for c in self.content[line_offset..].chars() {
+            if c == '\n' || c == '\r' || utf16_units >= character {
+                break;
+            }
+            utf16_units += c.len_utf16();
+            index += c.len_utf8();
+        }
+        (index, utf16_units <= character)
     }
 
     fn calculate_line_offsets(text: &str) -> Vec<usize> {
